@@ -244,6 +244,24 @@ func asInt(v interface{}) (int64, bool) {
 func (r *Rng) tweakPL(old map[string]interface{}, users []string, L int64) map[string]interface{} {
 	c := clonePL(old)
 	around := []interface{}{L - 1, L, L + 1, int64(0), int64(100)}
+	if r.Chance(6) {
+		// a JSON null where a level, or an object of levels, belongs (never an integer; refused from version 10 on)
+		switch r.Intn(4) {
+		case 0:
+			c[Pick(r, []string{"ban", "kick", "invite", "redact", "events_default", "state_default", "users_default"})] = nil
+		case 1:
+			c[Pick(r, []string{"users", "events", "notifications"})] = nil
+		default:
+			k := Pick(r, []string{"users", "events", "notifications"})
+			m, _ := c[k].(map[string]interface{})
+			if m == nil {
+				m = map[string]interface{}{}
+			}
+			m[Pick(r, map[string][]string{"users": users[1:], "events": plEventTypes, "notifications": {"room", "other"}}[k])] = nil
+			c[k] = m
+		}
+		return c
+	}
 	switch r.Intn(5) {
 	case 0, 1:
 		k := Pick(r, []string{"ban", "kick", "invite", "redact", "events_default", "state_default", "users_default"})
@@ -301,8 +319,23 @@ type AuthScenario struct {
 	Label   string
 }
 
+// caseVariant returns the content key under another letter case now and then: encoding/json matches struct fields
+// case-insensitively, so every reader of a member content (the auth check, StateNeededForAuth, the signature
+// requirements) has to see the same value under `Membership`, `Join_authorised_via_users_server`, `Third_party_invite`.
+func (r *Rng) caseVariant(key string) string { return r.caseVariantP(key, 4) }
+
+func (r *Rng) caseVariantP(key string, pct int) string {
+	if !r.Chance(pct) {
+		return key
+	}
+	if r.Chance(50) {
+		return strings.ToUpper(key[:1]) + key[1:]
+	}
+	return strings.ToUpper(key)
+}
+
 func (r *Rng) memberContent(membership string) map[string]interface{} {
-	c := map[string]interface{}{"membership": membership}
+	c := map[string]interface{}{r.caseVariant("membership"): membership}
 	if r.Chance(15) {
 		c["displayname"] = "x"
 	}
@@ -419,10 +452,19 @@ func genAuthScenario(r *Rng, ver string) *AuthScenario {
 			newM = Pick(r, []string{"", "JOIN", "kick"})
 		}
 		c := r.memberContent(newM)
+		if r.Chance(10) && len(c) == 1 {
+			// the event under test spells `membership` in another letter case (StateNeededForAuth must read what the check reads)
+			c = map[string]interface{}{r.caseVariantP("membership", 100): newM}
+		}
 		if newM == "join" && r.Chance(45) {
-			c["join_authorised_via_users_server"] = Pick(r, append([]string{"", "notauser", "@ghost:hs1"}, authUsers...))
+			c[r.caseVariant("join_authorised_via_users_server")] = Pick(r, append([]string{"", "notauser", "@ghost:hs1"}, authUsers...))
 		}
 		if r.Chance(2) {
+			for k := range c { // (one spelling of the key only: two members that fold to one field are outside the JSON glue model)
+				if strings.EqualFold(k, "membership") {
+					delete(c, k)
+				}
+			}
 			c["membership"] = Pick(r, []interface{}{5, nil, []string{}})
 		}
 		var content interface{} = c
@@ -450,7 +492,7 @@ func genAuthScenario(r *Rng, ver string) *AuthScenario {
 				signedJSON, _ = json.Marshal(m1)
 				valid = false
 			}
-			c["third_party_invite"] = map[string]interface{}{"display_name": "x", "signed": json.RawMessage(signedJSON)}
+			c[r.caseVariant("third_party_invite")] = map[string]interface{}{"display_name": "x", "signed": json.RawMessage(signedJSON)}
 			// the m.room.third_party_invite event
 			keys := []map[string]interface{}{}
 			include := r.Chance(80)
@@ -497,6 +539,9 @@ func genAuthScenario(r *Rng, ver string) *AuthScenario {
 			}
 			if oldPL == nil && sender == creator {
 				L = 100
+			}
+			if verImpl.PrivilegedCreators() && (sender == creator || (sender == "@alice:hs1" && cc["additional_creators"] != nil)) {
+				L = Pick(r, []int64{50, 75, 100}) // creators outrank every level: any value may be set
 			}
 			np = r.tweakPL(base, authUsers, L)
 		} else if r.Chance(75) {
@@ -624,6 +669,10 @@ func (d *detReader) Read(p []byte) (int, error) {
 }
 
 func genAuth(o *Out, tier string, r *Rng) {
+	if tier == "witness" { // run by hand: prints the named witnesses only (corpus/C07/auth.ops)
+		genAuthSpace(o, tier, r)
+		return
+	}
 	n := 4000
 	if tier == "thorough" {
 		n = 150000
